@@ -183,25 +183,27 @@ func (db *DB) Delete(key []byte) {
 }
 
 func (db *DB) Get(key []byte) (kv.Entry, error) {
-	sstables := db.currentSSTables()
-
 	// First try to get from the memtables
 	v, err := db.mtables.Get(key)
 	if err == nil {
 		return v, nil
 	}
 
-	// Then try the SSTables
+	// Then try the SSTables. The tables are looked up after the memtables: a
+	// flush publishes its tables before it drops the memtable, so an entry that
+	// has just left the memtables is in the tables seen now.
 	if err == kv.ErrNotFound {
-		return sstables.Get(key)
+		return db.currentSSTables().Get(key)
 	}
 
 	return nil, err
 }
 
 func (db *DB) ScanPrefix(prefix []byte, errOut *error) iter.Seq[kv.Entry] {
+	// Memtables first, then the tables (see Get).
+	mtableEntries := db.mtables.ScanPrefix(prefix, errOut)
 	sstables := db.currentSSTables()
-	iters := []iter.Seq[kv.Entry]{db.mtables.ScanPrefix(prefix, errOut), sstables.ScanPrefixWithDeletes(prefix, errOut)}
+	iters := []iter.Seq[kv.Entry]{mtableEntries, sstables.ScanPrefixWithDeletes(prefix, errOut)}
 
 	// Deleted records take part in the merge so that the newest version of a
 	// key wins wherever it is stored; they are dropped from the result.
